@@ -3306,6 +3306,11 @@ def are_co_aligned(*exprs):
             continue
         elif isinstance(e, (_DelayedExpr, Isin)):
             continue
+        elif isinstance(e, Reduction) and e.ndim == e.frame.ndim:
+            # A reduction that keeps the dimension (nlargest, value_counts,
+            # mode, ...) returns rows with an index of their own: it is not
+            # partitioned like its input and has to be aligned
+            ancestors.append(e)
         elif isinstance(e, (Blockwise, CumulativeAggregations, Reduction)):
             # TODO: Capture this in inheritance logic
             dependencies = e.dependencies()
